@@ -455,7 +455,7 @@ package composite
 //      built here), and the final desired resources are read from the last step's output.
 //
 //@ func (*composite.FunctionComposer).Compose
-//@ props C01 C03 C04
+//@ props C01 C03 C04 C09
 //@ requires c != nil && xr != nil
 //@ ghost observedOK bool = false
 //@ ghost pipelineOK bool = true
@@ -476,6 +476,8 @@ package composite
 //@   assert [C04:step-sent-to-the-function-it-names] $name == fn.FunctionRef.Name
 //@   assert [C04:every-step-sees-the-same-observed-state] $req != nil && $req.Observed == $o
 //@   assert [C04:desired-and-context-come-from-the-previous-step] steps > 0 ==> (($prevRsp != nil ==> $req.Desired == $prevRsp.Desired && $req.Context == $prevRsp.Context) && ($prevRsp == nil ==> $req.Desired == nil && $req.Context == nil))
+//@   assert [C04,C09:first-step-starts-from-an-empty-desired-state] steps == 0 ==> ($req.Desired != nil && $req.Desired.Composite == nil && len($req.Desired.Resources) == 0
+//@        && $req.Context != nil && len($req.Context.Fields) == 0)
 //@   assert [C03:no-step-after-a-failed-or-fatal-one] observedOK && pipelineOK && !sawFatal
 //@   assert [C04:step-receives-only-its-own-credentials] forall k:Str :: (k in $req.Credentials) ==> exists j :: 0 <= j && j < len(fn.Credentials) && fn.Credentials[j].Name == k
 //@   update pipelineOK = pipelineOK && err == nil
@@ -491,11 +493,13 @@ package composite
 //@   invariant [C03:pipeline-healthy-so-far] observedOK && pipelineOK && !sawFatal && !gcDone && !refsPersisted
 //@   invariant [C04:no-result-or-condition-dropped] len(events) == nresults && len(conditions) == nconds
 //@   invariant [C04:state-threaded-through] steps > 0 ==> (($prevRsp != nil ==> d == $prevRsp.Desired && fctx == $prevRsp.Context) && ($prevRsp == nil ==> d == nil && fctx == nil))
+//@   invariant [C04,C09:pipeline-starts-from-an-empty-desired-state] 0 <= steps && (steps == 0 ==> (d != nil && d.Composite == nil && len(d.Resources) == 0 && fctx != nil && len(fctx.Fields) == 0))
 //@ loop range fn.Credentials
 //@   invariant [C04:credentials-loaded-so-far-are-this-steps] req != nil && forall k:Str :: (k in req.Credentials) ==> exists j :: 0 <= j && j < done && fn.Credentials[j].Name == k
 //@   invariant [C03:still-healthy-while-loading-credentials] observedOK && pipelineOK && !sawFatal && !gcDone && !refsPersisted
 //@   invariant [C04:counts-kept-while-loading-credentials] len(events) == nresults && len(conditions) == nconds
 //@   invariant [C04:state-kept-while-loading-credentials] steps > 0 ==> (($prevRsp != nil ==> d == $prevRsp.Desired && fctx == $prevRsp.Context) && ($prevRsp == nil ==> d == nil && fctx == nil))
+//@   invariant [C04,C09:empty-start-kept-while-loading-credentials] 0 <= steps && (steps == 0 ==> (d != nil && d.Composite == nil && len(d.Resources) == 0 && fctx != nil && len(fctx.Fields) == 0))
 //@ loop range rsp.GetConditions()
 //@   invariant [C04:every-condition-surfaced-in-order] len(conditions) == nconds && len(events) == nresults
 //@ loop range rsp.GetResults()
